@@ -282,7 +282,7 @@ func coordinate(c *vc.Ctx, cases []Case) {
 	if c.Replay != "" {
 		replayFile(c)
 	}
-	os.RemoveAll(filepath.Join(vc.Root, "replays", c.ID)) // replay files of earlier runs
+	os.RemoveAll(filepath.Join(vc.OutRoot(), "replays", c.ID)) // replay files of earlier runs
 	perCase := vc.Pick(c, 60*time.Second, 10*time.Minute)
 	var mu sync.Mutex
 	var states, transitions, schedules, replays int64
